@@ -92,3 +92,15 @@ pub open spec fn contains_substr(h: Seq<char>, n: Seq<char>) -> bool {
 pub fn vp_str_contains_str(h: &str, n: &str) -> (r: bool)
     ensures r == contains_substr(h@, n@),
 { unimplemented!() }
+
+// ---- generic `Pattern` methods: deterministic but otherwise unspecified results (sound abstraction) ----
+pub uninterp spec fn str_contains_pat<P>(h: Seq<char>, p: P) -> bool;
+pub uninterp spec fn str_replace_pat<P>(h: Seq<char>, p: P, to: Seq<char>) -> Seq<char>;
+pub uninterp spec fn str_starts_with_pat<P>(h: Seq<char>, p: P) -> bool;
+pub uninterp spec fn str_ends_with_pat<P>(h: Seq<char>, p: P) -> bool;
+pub assume_specification<P: core::str::pattern::Pattern>[ str::contains::<P> ](s: &str, p: P) -> (r: bool)
+    ensures r == str_contains_pat(s@, p);
+pub assume_specification<P: core::str::pattern::Pattern>[ str::replace::<P> ](s: &str, p: P, to: &str) -> (r: String)
+    ensures r@ == str_replace_pat(s@, p, to@);
+pub assume_specification<P: core::str::pattern::Pattern>[ str::starts_with::<P> ](s: &str, p: P) -> (r: bool)
+    ensures r == str_starts_with_pat(s@, p);
